@@ -97,14 +97,25 @@ func (p *Packet) Frames() int {
 	if p.shape == nil || p.format == nil || p.format.wordlen <= 0 {
 		return 0
 	}
-	nchan := 1
-	for _, s := range p.shape.Sizes {
+	nchan := shapeProduct(p.shape.Sizes)
+	return int(p.payloadLength) / (p.format.wordlen * nchan)
+}
+
+// shapeProduct multiplies the positive dimensions of a payload shape. A payload is at most 65535 bytes
+// long, so the product saturates just above that: a (corrupt or hostile) shape with many large
+// dimensions must not overflow into a zero or negative channel count.
+func shapeProduct(sizes []int16) int {
+	const limit = 1 << 16
+	n := 1
+	for _, s := range sizes {
 		if s > 0 {
-			nchan *= int(s)
+			n *= int(s)
+			if n >= limit {
+				return limit
+			}
 		}
 	}
-
-	return int(p.payloadLength) / (p.format.wordlen * nchan)
+	return n
 }
 
 // SequenceNumber returns the packet's internal sequenceNumber
@@ -329,11 +340,7 @@ func (p *Packet) ChannelInfo() (nchan, offset int) {
 	if p.shape == nil {
 		return nchan, int(p.offset)
 	}
-	for _, s := range p.shape.Sizes {
-		if s > 0 {
-			nchan *= int(s)
-		}
-	}
+	nchan = shapeProduct(p.shape.Sizes)
 	return nchan, int(p.offset)
 }
 
